@@ -71,6 +71,10 @@ CHECKS = {
                 text="The whole bundled database (797 classes, 3242 descriptors, 7231 defaults, 458 enums) is exported from the working tree and each entry is one TLC state whose coherence predicate (Reflection.tla) is an invariant - exhaustive. Closure under the codec: every class populated with its default set and every serializable descriptor are written/read by rbx_binary and judged by BinaryFormat.tla.",
                 note="The export walks the public rbx_reflection API; a regenerated database is checked as it is. Quick tier samples the closure cases, thorough runs all.",
                 technique="TLA+ coherence predicates over the database as a constant (TLC, exhaustive) + codec closure traces"),
+    "C17": dict(level="exploration", ref="§4 C17, §2.7",
+                text="TextForms.tla (TLC, exhaustive at width 8) models UniqueId's Display/FromStr and the Faces/Axes bit-set <-> name-list bijection. TextTrace.tla judges recorded executions: every implemented Variant type through serde_json (str, slice, reader, Value), bincode and MessagePack must come back bit-identical; UniqueId/Ref text forms (incl. negative random) round-trip; every u16 BrickColor number, every Faces/Axes bit set (name lists as specified), Tags/MaterialColors blobs; every sample of rbx_dom_lua/src/allValues.json decodes to its stated type and re-encodes to the same JSON tree.",
+                note="The generic serde derives are identity checks to which the specification adds little (stated in DESIGN.md §5); serde_json is built with float_roundtrip in the harness.",
+                technique="TLA+ text-form model (TLC) + trace validation of serde/text round trips (TextTrace.tla)"),
     "C18": dict(level="model_checking", ref="§4 C18, §2.4",
                 text="TLC checks SharedString.tla for every interleaving of 3-4 threads (DataIntact, Dedup, EmptyAtQuiescence, deadlock freedom, liveness of the release window); every maximal interleaving of the 2-thread model is executed by real threads parked by hook H1 and validated step by step with the complete intern-table state; barrier snapshots of free-running threads must satisfy all invariants.",
                 note="Trusted: hook H1 placement (between Arc::into_inner and the table lock), TLC, thread/op bounds of the model; Arc internals are not modelled below the strong count.",
